@@ -586,3 +586,45 @@ mod tests {
         assert_eq!(res4, 4);
     }
 }
+
+#[cfg(feature = "mmtk_verif")]
+impl RawMemoryFreeList {
+    /// Verification accessor (add-only): `(base, limit, high_water, max_units, grain,
+    /// current_units, pages_per_block, slice.len())`.
+    pub fn verif_fields(&self) -> (Address, Address, Address, i32, i32, i32, i32, usize) {
+        (
+            self.base,
+            self.limit,
+            self.high_water,
+            self.max_units,
+            self.grain,
+            self.current_units,
+            self.pages_per_block,
+            self.slice.len(),
+        )
+    }
+    /// Verification accessor (add-only): the private `current_capacity`.
+    pub fn verif_current_capacity(&self) -> i32 {
+        self.current_capacity()
+    }
+    /// Verification accessor (add-only): the private `units_per_block`.
+    pub fn verif_units_per_block(&self) -> i32 {
+        self.units_per_block()
+    }
+    /// Verification accessor (add-only): the private `units_in_first_block`.
+    pub fn verif_units_in_first_block(&self) -> i32 {
+        self.units_in_first_block()
+    }
+    /// Verification accessor (add-only): the private `raise_high_water`.
+    pub fn verif_raise_high_water(&mut self, blocks: i32) {
+        self.raise_high_water(blocks)
+    }
+    /// Verification accessor (add-only): the private `grow_list_by_blocks`.
+    pub fn verif_grow_list_by_blocks(&mut self, blocks: i32, new_max: i32) {
+        self.grow_list_by_blocks(blocks, new_max)
+    }
+    /// Verification accessor (add-only): the currently mapped table (raw entries).
+    pub fn verif_table(&self) -> &[i32] {
+        self.slice
+    }
+}
